@@ -87,11 +87,20 @@ mod params_builder {
 		/// Insert a named value (key, value) pair into the builder.
 		/// The _name_ and _value_ are delimited by the `:` token.
 		pub(crate) fn insert_named<P: Serialize>(&mut self, name: &str, value: P) -> Result<(), serde_json::Error> {
+			let len = self.bytes.len();
 			self.maybe_initialize();
 
-			serde_json::to_writer(&mut self.bytes, name)?;
-			self.bytes.push(b':');
-			serde_json::to_writer(&mut self.bytes, &value)?;
+			let res = serde_json::to_writer(&mut self.bytes, name).and_then(|_| {
+				self.bytes.push(b':');
+				serde_json::to_writer(&mut self.bytes, &value)
+			});
+
+			// A failed serialization may have written a partial value, remove it.
+			if let Err(e) = res {
+				self.bytes.truncate(len);
+				return Err(e);
+			}
+
 			self.bytes.push(b',');
 
 			Ok(())
@@ -99,9 +108,15 @@ mod params_builder {
 
 		/// Insert a plain value into the builder.
 		pub(crate) fn insert<P: Serialize>(&mut self, value: P) -> Result<(), serde_json::Error> {
+			let len = self.bytes.len();
 			self.maybe_initialize();
 
-			serde_json::to_writer(&mut self.bytes, &value)?;
+			// A failed serialization may have written a partial value, remove it.
+			if let Err(e) = serde_json::to_writer(&mut self.bytes, &value) {
+				self.bytes.truncate(len);
+				return Err(e);
+			}
+
 			self.bytes.push(b',');
 
 			Ok(())
